@@ -7,6 +7,9 @@ pub use num_bigint::{BigInt, BigUint, Sign};
 
 #[cfg(feature = "guardalloc")]
 pub mod guardalloc;
+#[cfg(feature = "guardalloc")]
+#[global_allocator]
+static GLOBAL: guardalloc::GuardAlloc = guardalloc::GuardAlloc;
 
 /// BigUint from little-endian u64 digits (trailing zeros allowed), through the public API.
 pub fn bu(d: &[u64]) -> BigUint {
